@@ -306,3 +306,47 @@ def self_test():
         'accumulator_reads': bool(accumulator_reads(t['accumulator_reads'])[0]),
     }
     return ok
+
+
+def sequential_substitution(fnode):
+    """[(loop, statement)]: `for k, v in m.items(): x = x.replace/subs(k, v)` or `frame.loc[frame[c] == k, c] = v`:
+    a mapping applied one entry at a time (wrong when a value is also a key)"""
+    out = []
+    for L in [x for x in walk_no_nested(fnode) if isinstance(x, ast.For)]:
+        it = L.iter
+        if not (isinstance(it, ast.Call) and isinstance(it.func, ast.Attribute) and it.func.attr == 'items'
+                and isinstance(L.target, ast.Tuple) and len(L.target.elts) == 2
+                and all(isinstance(e, ast.Name) for e in L.target.elts)):
+            continue
+        k, v = [e.id for e in L.target.elts]
+        for s in L.body:
+            for a in ast.walk(s):
+                if not (isinstance(a, ast.Assign) and len(a.targets) == 1):
+                    continue
+                t = a.targets[0]
+                if isinstance(t, ast.Name) and isinstance(a.value, ast.Call) and isinstance(a.value.func, ast.Attribute) \
+                        and a.value.func.attr in ('replace', 'subs', 'xreplace', 'rename') \
+                        and isinstance(a.value.func.value, ast.Name) and a.value.func.value.id == t.id:
+                    nm = _names(a.value)
+                    if k in nm and v in nm:
+                        out.append((L, a))
+                if isinstance(t, ast.Subscript) and k in _names(t) and v in _names(a.value) \
+                        and any(isinstance(x, ast.Compare) for x in ast.walk(t)):
+                    out.append((L, a))
+    return out
+
+
+POSITIVE_EXAMPLES['sequential_substitution'] = """
+def f(df, remap):
+    for old, new in remap.items():
+        df.loc[df['CMT'] == old, 'CMT'] = new
+    return df
+"""
+_self_test_base = self_test
+
+
+def self_test():  # noqa: F811
+    ok = _self_test_base()
+    t = ast.parse(POSITIVE_EXAMPLES['sequential_substitution']).body[0]
+    ok['sequential_substitution'] = bool(sequential_substitution(t))
+    return ok
